@@ -67,6 +67,13 @@ def run_case(doc_text, ops, mode, collect=None):
             notes = []
         except A.Unspecified:
             info["classes"].append("unspecified")
+            # not judged against the model; the one thing every reading agrees on: no name is defined twice afterwards
+            st_u, res_u, _s = E.run_op(cur, op, path, value)
+            if st_u == "ok" and isinstance(res_u, str):
+                dups = [d for d in A.duplicate_names(res_u) if d not in A.duplicate_names(cur)]
+                if dups:
+                    fails.append((f"duplicate-definition|{op}:{cls}|{shape}", {"names": dups, "doc": cur[:400], "op": [op, path, value], "out": res_u[:400]}))
+                    break
             continue
         status, res, src2 = E.run_op(src if mode == "same-object" else cur, op, path, value)
         info["steps"] += 1
